@@ -82,7 +82,7 @@ func headersParse(c *casket.Controller) ([]Rule, error) {
 				value = args[0]
 			}
 
-			head.Headers.Add(name, value)
+			head.add(name, value)
 		}
 		if c.NextArg() {
 			// ... or single header was defined as an argument instead.
@@ -94,7 +94,7 @@ func headersParse(c *casket.Controller) ([]Rule, error) {
 				value = c.Val()
 			}
 
-			head.Headers.Add(name, value)
+			head.add(name, value)
 		}
 
 		if isNewPattern {
